@@ -107,7 +107,14 @@ contract(P + "RewriteLargeUnion._rewrite_to_tuple", props=["C07"], theories=TH, 
                             "value": "implies(_i > 0, value_type is not None and wf_rw(value_type) and value_type is not ELLIPSIS_)",
                             "elems": "forall(range_(0, _i), lambda j: forall(args(nth(args(union), j)), lambda e: e is value_type))"}},
                 "tags": {"value_type": "Opt[Ty]"}})
-rw_contract("RewriteAnonymousTypedDictToDict.rewrite_anonymous_TypedDict", "typed_dict", kinds=["TD"], rank=0)
+rw_contract("RewriteAnonymousTypedDictToDict.rewrite_anonymous_TypedDict", "typed_dict", kinds=["TD"], rank=0,
+            hints={"values-left": "implies(kind(result) is K_Dict and nth(args(result), 0) is STR, forall(range_(0, len(td_req(typed_dict))), lambda j: nth(L_all_value_types, j) is lookup(td_req(typed_dict), nth(td_req(typed_dict), j))))",
+                   "values-right": "implies(kind(result) is K_Dict and nth(args(result), 0) is STR, forall(range_(0, len(td_opt(typed_dict))), lambda j: nth(L_all_value_types, len(values_(td_req(typed_dict))) + j) is lookup(td_opt(typed_dict), nth(td_opt(typed_dict), j))))",
+                   "values-types-left": "implies(kind(result) is K_Dict and nth(args(result), 0) is STR, forall(range_(0, len(td_req(typed_dict))), lambda j: wf_rw(nth(L_all_value_types, j)) and nth(L_all_value_types, j) is not ELLIPSIS_))",
+                   "values-types": "implies(kind(result) is K_Dict and nth(args(result), 0) is STR, forall(L_all_value_types, lambda t: wf_rw(t) and t is not ELLIPSIS_))",
+                   "req-covered": "forall(td_req(typed_dict), lambda k: forall_val(lambda v: implies(mem(v, lookup(td_req(typed_dict), k)), mem(v, nth(args(result), 1)))))",
+                   "opt-covered": "forall(td_opt(typed_dict), lambda k: forall_val(lambda v: implies(mem(v, lookup(td_opt(typed_dict), k)), mem(v, nth(args(result), 1)))))",
+                   "shape": "kind(result) is K_Dict and (nth(args(result), 0) is STR or nth(args(result), 0) is ANY)"})
 rw_contract("RewriteGenerator.rewrite_Generator", "typ", kinds=["Generator"])
 rw_contract("RewriteMostSpecificCommonBase.rewrite_Union", "union", kinds=["Union"], mode="assumed",
             note="bounded in this round (runtime/props/c07.py): _compute_bases / functools.reduce over MRO chains")
